@@ -28,15 +28,14 @@ RtFails(r) ==
         IF r.fmt = "cmdseq" /\ r.size # CmdSeqSize(r.orig) THEN {F("rt.size", CmdSeqSize(r.orig))} ELSE {},
         IF StartsWith(r.err, "read:") THEN {F("rt.read", "no error")}
         ELSE IF r.fmt = "pcf"
-        THEN UNION {ValueFails("rt.value", r.back, PcfLeak(r.orig)),
-                    IF PcfLeak(r.orig) # r.orig /\ r.back = PcfLeak(r.orig) THEN {F("rt.pcf.name_option", r.orig)} ELSE {},
+        THEN UNION {ValueFails("rt.value", r.back, r.orig),     \* (the reader no longer lists 'name' among the options)
                     IF r.h2 # r.h1 THEN {F("rt.second", r.h1)} ELSE {}}
         ELSE UNION {ValueFails("rt.value", r.back, Decay(r.fmt, r.orig)),
                     IF r.h2 # r.h1 THEN {F("rt.second", r.h1)} ELSE {}}}
 
 SampleFails(r) ==
     IF r.err # "" THEN {F("sample.error", "no error")}
-    ELSE UNION {ValueFails("sample.value", r.second, IF r.fmt = "pcf" THEN PcfLeak(r.first) ELSE Decay(r.fmt, r.first)),
+    ELSE UNION {ValueFails("sample.value", r.second, Decay(r.fmt, r.first)),
                 IF r.h2 # r.h1 THEN {F("sample.second", r.h1)} ELSE {}}
 
 (* ---- the container -------------------------------------------------------- *)
